@@ -628,6 +628,8 @@ theorem good_mapLoop {cap : Cap} {L R : Bool} (m : Nat) (items : List Item) (p :
     simp only
     obtain ⟨h0, hsn0⟩ := spSt_pullItem p m rest h hsn
     split
+    · exact good_finishMetaSp _ m _ h0 (Int.le_refl 0) (fun c fr x => PM.acc1 x (by simp))
+    split
     · refine ih _ (h0.modReq' _ (PM rest.length 0) (fun _ => ⟨rfl, rfl, Or.inl rfl, fun h => h⟩) (fun _ _ x => x) (fun _ => rfl) ?_)
         (ReqAt.modReq hsn0 _ (fun _ hx => hx))
       intro r _ hp
